@@ -407,6 +407,120 @@ theorem lagOkAt_shift (d L : Nat) (ends outs : List Nat) (tr : List Ev)
     have := (List.pairwise_iff_getElem.1 hs) (k + d) (k + (d + 1)) hlt2 hlt (by omega)
     omega
 
+/-! ## The one-pass acceptor computes the same -/
+
+theorem sortedB_pairwise : ∀ (l : List Nat), sortedB l = true → l.Pairwise (· ≤ ·)
+  | [], _ => List.Pairwise.nil
+  | [_], _ => by simp
+  | a :: b :: t, h => by
+    simp only [sortedB, Bool.and_eq_true, decide_eq_true_eq] at h
+    have ih := sortedB_pairwise (b :: t) h.2
+    rw [List.pairwise_cons] at ih ⊢
+    refine ⟨?_, List.pairwise_cons.2 ih⟩
+    intro x hx
+    simp only [List.mem_cons] at hx
+    rcases hx with rfl | hx
+    · exact h.1
+    · have := ih.1 x hx; omega
+
+theorem dropDone_firstBad (w i : Nat) (tr : List Ev) : ∀ (bs os : List Nat),
+    firstBad bs os w i tr = firstBad (dropDone w bs os).1 (dropDone w bs os).2 w i tr := by
+  intro bs
+  induction bs with
+  | nil => intro os; simp [dropDone]
+  | cons b bs ih =>
+    intro os
+    cases os with
+    | nil => simp [dropDone]
+    | cons o os =>
+      simp only [dropDone]
+      split
+      · rename_i h
+        rw [firstBad_cons_done _ _ _ _ _ _ _ h]
+        exact ih os
+      · rfl
+
+theorem dropDone_sorted (w : Nat) : ∀ (bs os : List Nat), bs.Pairwise (· ≤ ·) →
+    (dropDone w bs os).1.Pairwise (· ≤ ·) := by
+  intro bs
+  induction bs with
+  | nil => intro os _; simp [dropDone]
+  | cons b bs ih =>
+    intro os hs
+    cases os with
+    | nil => simpa [dropDone] using hs
+    | cons o os =>
+      simp only [dropDone]
+      split
+      · exact ih os hs.of_cons
+      · exact hs
+
+theorem dropDone_head (w : Nat) : ∀ (bs os : List Nat) (b o : Nat) (bs' os' : List Nat),
+    dropDone w bs os = (b :: bs', o :: os') → w < o := by
+  intro bs
+  induction bs with
+  | nil => intro os b o bs' os' h; simp [dropDone] at h
+  | cons b0 bs ih =>
+    intro os b o bs' os' h
+    cases os with
+    | nil => simp [dropDone] at h
+    | cons o0 os =>
+      simp only [dropDone] at h
+      split at h
+      · exact ih os b o bs' os' h
+      · simp only [Prod.mk.injEq, List.cons.injEq] at h
+        obtain ⟨⟨rfl, _⟩, ⟨rfl, _⟩⟩ := h
+        omega
+
+/-- On nondecreasing bounds the one-pass acceptor is the acceptor. -/
+theorem firstBadFast_eq (tr : List Ev) : ∀ (bs os : List Nat) (w i : Nat), bs.Pairwise (· ≤ ·) →
+    firstBadFast bs os w i tr = firstBad bs os w i tr := by
+  induction tr with
+  | nil => intro bs os w i _; simp [firstBadFast, firstBad]
+  | cons e t ih =>
+    intro bs os w i hs
+    cases e with
+    | wr n => simp only [firstBadFast, firstBad]; exact ih bs os _ _ hs
+    | rd off n =>
+      rw [dropDone_firstBad w i (.rd off n :: t) bs os]
+      have hs' := dropDone_sorted w bs os hs
+      have hh := dropDone_head w bs os
+      simp only [firstBadFast, firstBad]
+      generalize dropDone w bs os = p at hs' hh
+      obtain ⟨p1, p2⟩ := p
+      cases p1 with
+      | nil => simp only [readOk, if_true]; exact ih _ _ _ _ hs'
+      | cons b bs' =>
+        cases p2 with
+        | nil => simp only [readOk, if_true]; exact ih _ _ _ _ hs'
+        | cons o os' =>
+          have hw := hh b o bs' os' rfl
+          simp only
+          by_cases hb : b ≤ off
+          · have : readOk (b :: bs') (o :: os') off w = false := by
+              simp only [readOk, Bool.and_eq_false_imp, Bool.or_eq_true, Bool.not_eq_true',
+                decide_eq_false_iff_not, decide_eq_true_eq]
+              intro h; rcases h with h | h <;> omega
+            simp [hb, this]
+          · have : readOk (b :: bs') (o :: os') off w = true := by
+              apply readOk_above
+              intro x hx
+              simp only [List.mem_cons] at hx
+              rcases hx with rfl | hx
+              · omega
+              · have := (List.pairwise_cons.1 hs').1 x hx; omega
+            simp only [hb, if_false, this, if_true]
+            exact ih _ _ _ _ hs'
+
+theorem lagFirstBadFast_eq (d la : Nat) (ends outs : List Nat) (tr : List Ev) :
+    lagFirstBadFast d la ends outs tr = lagFirstBad d la ends outs tr := by
+  unfold lagFirstBadFast
+  split
+  · rename_i h
+    simp only [Bool.and_eq_true] at h
+    exact firstBadFast_eq tr _ _ _ _ (boundsAt_sorted d la ends (sortedB_pairwise ends h.1))
+  · rfl
+
 /-! ## The slurp trace is rejected -/
 
 theorem firstBad_readAll (bs os : List Nat) (i : Nat) (rest : List Ev) (sizes : List Nat) (del : Nat)
